@@ -261,3 +261,57 @@ func ZZ_Step() {
 // zzCopy: Line.Set keeps the slice it is given and the editing primitives write into its
 // backing array, so the harness hands over a copy and keeps its own reference intact.
 func zzCopy(rs []rune) []rune { return append([]rune(nil), rs...) }
+
+// ZZ_C06_ViSearch: vi command mode with a history; '?' or '/' opens the search minibuffer,
+// k symbolic letters are typed as the pattern, Enter runs the search. The C06 invariants are
+// asserted at every input wait — on the buffer the API reports — and, back in command mode
+// on a non-empty line, the cursor must be on a character.
+// params: key (? or /), k (pattern length), el (entry length)
+func ZZ_C06_ViSearch() {
+	key := zzverif.Param("key")
+	k := zzverif.ParamInt("k")
+	el := zzverif.ParamInt("el")
+	small := func(prefix string, n int) []rune {
+		rs := zzverif.Runes(prefix, n)
+		for _, r := range rs {
+			zzverif.Assume(r >= 'a' && r <= 'c')
+		}
+		return rs
+	}
+	entry := small("e", el)
+	pat := small("s", k)
+	script := &zzverif.Script{}
+	rl := zzSession(script)
+	wait := 0
+	script.OnWait = func() {
+		if wait == 0 {
+			wait++
+			src := history.NewInMemoryHistory()
+			src.Write("zz")
+			src.Write(string(entry))
+			rl.History.Add("zzhist", src)
+			rl.Keymap.SetMain(keymap.ViCommand)
+			script.Chunks = [][]byte{[]byte(key)}
+			for _, r := range pat {
+				script.Chunks = append(script.Chunks, []byte(string(r)))
+			}
+			script.Chunks = append(script.Chunks, []byte("\r"))
+			return
+		}
+		wait++
+		pos := rl.cursor.Pos()
+		length := rl.line.Len()
+		zzverif.Assert(pos >= 0 && pos <= length, "cursor-in-buffer")
+		if script.Remaining() > 0 {
+			return
+		}
+		zzverif.Reach("search-done")
+		zzverif.Note("after", string(*rl.line))
+		searching, _, _ := rl.completer.NonIncrementallySearching()
+		if rl.Keymap.Main() == keymap.ViCommand && rl.Keymap.Local() == "" && !searching && length > 0 && !rl.cursor.OnEmptyLine() {
+			zzverif.Assert(pos < length, "vi-command-cursor-on-char")
+		}
+	}
+	rl.Readline()
+	zzverif.Reach("returned")
+}
